@@ -11,6 +11,8 @@
                                         <m> = i (inherited) | n (own, not callable) | r<primitive> (own function)
     A<values>] array   O(<units>.<value>)*} object   J<value> object whose toJSON returns <value>
     R<n>. reference to the n-th enclosing array/object (a cycle)
+    P<own>}<own non-enumerable>}<inherited>} an object made with Object.create(proto) (Q: with new C,
+                     C.prototype = proto); each part is a member list like that of O
     H<units>.<value> (as a member or element) an accessor whose getter returns <value> and makes the
                      holder's property <units> non-enumerable
   replacer: -  |  f<id> (function family, see `replFn`)  |  L<items>] with items S.. D.. BS.. BD.. Z(other)
@@ -88,6 +90,8 @@ partial def readSV (cs : List Char) : Option (SV × List Char) :=
     | _ => none
   | 'A' :: r => (readSVs r).map fun p => (.arr p.1, p.2)
   | 'O' :: r => (readSMs r).map fun p => (.obj p.1, p.2)
+  | 'P' :: r => (readSMs r).bind fun o => (readSMs o.2).bind fun n => (readSMs n.2).map fun p => (.objP o.1 n.1 p.1, p.2)
+  | 'Q' :: r => (readSMs r).bind fun o => (readSMs o.2).bind fun n => (readSMs n.2).map fun p => (.objP o.1 n.1 p.1, p.2)
   | _ => none
 partial def readSVs (cs : List Char) : Option (SVs × List Char) :=
   match cs with
@@ -203,7 +207,7 @@ def handleRevive (text : Str) (f : Reviver) : String :=
 
 
 def isObjectish : SV → Bool
-  | .null | .boxNum _ | .boxStr _ | .boxBool _ | .arr _ | .obj _ | .tojson _ | .back _ | .wrapNum .. | .wrapStr .. => true
+  | .null | .boxNum _ | .boxStr _ | .boxBool _ | .arr _ | .obj _ | .tojson _ | .back _ | .wrapNum .. | .wrapStr .. | .objP .. => true
   | .getter r _ => isObjectish r
   | _ => false
 
@@ -327,6 +331,7 @@ partial def tjDescend (env : String) (u : SV) : List Str :=
   match u with
   | .arr l => tjLogL env 0 l
   | .obj m => tjLogM env m
+  | .objP own _ _ => tjLogM env own
   | _ => []
 partial def tjLogL (env : String) (i : Nat) : SVs → List Str
   | .nil => []
